@@ -59,7 +59,7 @@ def strategy(tier):
     op = st.one_of(st.tuples(st.just("add"), ki), st.tuples(st.just("add"), ki), st.tuples(st.just("add"), ki),
                    st.tuples(st.just("reopen"), loc, st.booleans()),
                    st.tuples(st.just("export"), st.sampled_from(["rel", "abs", "path"]), st.booleans()),
-                   st.tuples(st.just("clear")))
+                   st.tuples(st.just("clear")), st.tuples(st.just("setcount"), st.integers(0, 60)))
     return st.fixed_dictionaries({
         # 1 case in 16: bit arrays beyond one page / beyond 64 KiB (only the first three operations are run then)
         "est": st.integers(0, 15).flatmap(lambda z: st.sampled_from([600, 7000, 60000]) if z == 0 else
@@ -133,7 +133,7 @@ def read_file(ctx, path, what):
         return f.read()
 
 
-def snapshot_ok(ctx, raw, geo, before_bits, after_bits, completed, inflight, what):
+def snapshot_ok(ctx, raw, geo, before_bits, after_bits, completed, inflight, what, stale=None):
     m, bl, est, fpr32 = geo
     name = "C11.snapshot"
     ctx.check(name, len(raw) == bl + 20, lambda: f"{what}: file length {len(raw)} != {bl}+20")
@@ -144,7 +144,7 @@ def snapshot_ok(ctx, raw, geo, before_bits, after_bits, completed, inflight, wha
     ctx.check(name, bi & lo == lo, f"{what}: a bit of a completed addition is missing from the file")
     ctx.check(name, bi | hi == hi, f"{what}: the file has a bit no completed or in-flight addition sets")
     # the count may lag behind the addition in flight, never run ahead of it: completed+1 only once all its bits are in the file
-    ok = cnt == completed or (inflight and cnt == completed + 1 and bits == after_bits)
+    ok = cnt == completed or (inflight and cnt == completed + 1 and bits == after_bits) or (stale is not None and cnt == stale)
     ctx.check(name, ok, lambda: f"{what}: stored count {cnt}, completed additions {completed}, add in flight: {inflight}, "
                                 f"in-flight bits all present: {bits == after_bits}")
     return bits, cnt
@@ -171,6 +171,8 @@ def replay(case, root, ctx=None, kill_at=None, collect=None):
     keys = []
     ops = case["ops"]
     feats = set()
+    stale = [0]  # the count most recently written to the file: after an assignment through the elements_added setter the file may
+    # keep showing it until the next add / close / export / clear rewrites the footer
     nsnap = [0]
     digests = set()
     for oi, op in enumerate(ops):
@@ -193,9 +195,19 @@ def replay(case, root, ctx=None, kill_at=None, collect=None):
             targ = os.path.relpath(target, tcwd) if op[1] == "rel" else (Path(target) if op[1] == "path" else target)
             os.chdir(tcwd)
             fn, args, inflight = o.export, (targ,), False
+        elif kind == "setcount":
+            # the documented setter: the same assignment on the reference filter; the file may keep the old count until the next
+            # add / close / export rewrites the footer, from then on it must be the assigned value (+ later adds)
+            ref.elements_added = op[1]
+            o.elements_added = op[1]
+            if ctx is not None:
+                ctx.op("setcount", op[1])
+                feats.add("setcount")
+            continue
         else:  # clear: an explicit forget, not a crash-point subject
             call(o.clear)
             ref.clear()
+            stale[0] = 0
             keys = []
             if ctx is not None:
                 raw = read_file(ctx, W.fileabs, "snapshot")
@@ -217,7 +229,7 @@ def replay(case, root, ctx=None, kill_at=None, collect=None):
             def hook(i):
                 raw = read_file(ctx, W.fileabs, "snapshot")
                 nsnap[0] += 1
-                bits, cnt = snapshot_ok(ctx, raw, geo, before, after, completed, inflight, f"op {oi} {kind} line event {i}")
+                bits, cnt = snapshot_ok(ctx, raw, geo, before, after, completed, inflight, f"op {oi} {kind} line event {i}", stale[0])
                 if snaps is not None:
                     snaps.append(raw)
                 if inflight and ((bits != before and cnt == completed) or (bits == before and cnt == completed + 1 and before != after)):
@@ -234,6 +246,7 @@ def replay(case, root, ctx=None, kill_at=None, collect=None):
             feats.add("traced_" + kind)
         if kind == "add":
             keys.append(k)
+        stale[0] = ref.elements_added  # add / close / export rewrote the footer
         # state after the operation
         if ctx is not None:
             raw = read_file(ctx, W.fileabs, "snapshot")
